@@ -534,6 +534,18 @@ pub fn run_check(tier: &str) -> i32 {
                     result.accum.evaluations += fr.executions;
                     *result.accum.counters.entry(format!("libfuzzer:{}:executions", target)).or_default() += fr.executions;
                     *result.accum.counters.entry(format!("libfuzzer:{}:corpus-files", target)).or_default() += fr.corpus_files as u64;
+                    // inputs libFuzzer gave up on after 60 s: kept for inspection, never a verdict
+                    for (k, pth) in fr.timeouts.iter().enumerate() {
+                        let bytes = std::fs::read(pth).unwrap_or_default();
+                        let known = std::str::from_utf8(&bytes).map(plus_over_nullable).unwrap_or(false);
+                        let key = if known { format!("libfuzzer:{}:time-limit-inputs(known finding D21)", target) } else { format!("libfuzzer:{}:time-limit-inputs(inconclusive, saved)", target) };
+                        *result.accum.counters.entry(key).or_default() += 1;
+                        if !known {
+                            let dir = out_root().join("evidence").join("replays");
+                            let _ = std::fs::create_dir_all(&dir);
+                            let _ = std::fs::write(dir.join(format!("C05-libfuzzer-time-limit-{}-{}.txt", target, k)), &bytes);
+                        }
+                    }
                     let arts: Vec<Vec<u8>> = fr.artifacts.iter().filter_map(|p| std::fs::read(p).ok()).collect();
                     let r = if target == "c05_tape" { run_fixed(&spec, &arts, |b| case(&tape_of_bytes(b)), |b| tape_of_bytes(b)) } else { run_fixed(&spec, &arts, artifact_case, |b| vec![0xFFFF_FF05, 0].into_iter().chain(b.iter().map(|x| *x as u32)).collect()) };
                     result = merge_results(result, r);
